@@ -224,8 +224,26 @@ def hostile_run(ctx, i):
                                     call("write_traceback", eliot.write_traceback)
                         if r2:
                             problems.append("__exit__ returned a truthy value")
-                    elif r < 0.8:
+                    elif r < 0.72:
                         call("log_message", eliot.log_message, "h:msg", **fields())
+                    elif r < 0.8:
+                        # write_traceback where no exception is being handled (a `finally:` block, a helper called on both
+                        # paths, `logging.error(..., exc_info=True)` through a bridge), or with an exc_info put together by hand
+                        how = rng.choice(["none-active", "all-none", "no-traceback", "caught-earlier"])
+                        if how == "none-active":
+                            call("write_traceback() with no exception being handled", eliot.write_traceback)
+                        elif how == "all-none":
+                            call("write_traceback(exc_info=(None, None, None))", eliot.write_traceback, exc_info=(None, None, None))
+                        elif how == "no-traceback":
+                            e = ValueError("made by hand")
+                            call("write_traceback(exc_info=(type, exception, None))", eliot.write_traceback, exc_info=(ValueError, e, None))
+                        else:
+                            try:
+                                raise BadExc("earlier")
+                            except BadExc as e0:
+                                kept = e0
+                            call("write_traceback(exc_info of an exception caught earlier)", eliot.write_traceback,
+                                 exc_info=(type(kept), kept, kept.__traceback__))
                     else:
                         mt = eliot.MessageType("h:typed", [eliot.Field("a", rng.choice([str, repr, lambda v: v, lambda v: v.nope]), "")])
                         f = fields()
@@ -255,10 +273,9 @@ def corpus_cases():
     """Hand-written cases that run first (minimised past findings and shapes random generation rarely hits)."""
     from ..sysinterp import builtin_classes
     bi = builtin_classes()
-    classes = [dict(id=cid, name=k.__name__, bases=[], mro=[c for c in [cid] + ([101, 100] if cid not in (100, 101) else ([100] if cid == 101 else []))],
+    ids = {k: cid for cid, k in bi.items()}
+    classes = [dict(id=cid, name=k.__name__, bases=[], mro=[ids[c] for c in k.__mro__ if c in ids],
                     qualname="%s.%s" % (k.__module__, k.__name__)) for cid, k in sorted(bi.items())]
-    for c in classes:
-        c["mro"] = [x for x in c["mro"] if x in bi]
     classes += [dict(id=0, name="C0", bases=[101], mro=[0, 101, 100], qualname="vmod.C0", falsy=False),
                 dict(id=1, name="C1", bases=[101], mro=[1, 101, 100], qualname="vmod.C1", falsy=False)]
     excs = [dict(id=0, cls=0, str="exc0"), dict(id=8, cls=1, str="cb8"), dict(id=9, cls=0, str="cb9")]
